@@ -361,46 +361,54 @@ def onUpstreamTrailers (c : Cfg) (s : S) : S :=
   dsAppendTrailers c (onUpstreamResponseRecvFinished c s)
 
 /-- `downStream.setupPerReqTimeout()` -/
-def setupPerReqTimeout (c : Cfg) (s : S) : S := if c.tryTimeout then { s with perTry := true } else s
+def setupPerReqTimeout (c : Cfg) (s : S) : S := { s with perTry := s.perTry || c.tryTimeout }
 
-/-- `downStream.onUpstreamRequestSent()` (the global timeout is always > 0 after `parseProxyTimeout`) -/
+/-- `downStream.onUpstreamRequestSent()` (the global timeout is always > 0 after `parseProxyTimeout`): the timers
+are armed when an upstream request exists and the request is two-way -/
 def onUpstreamRequestSent (c : Cfg) (s : S) : S :=
-  let s := { s with reqSent := true }
-  if s.up.isSome && !c.oneway then { setupPerReqTimeout c s with global := true } else s
+  let arm := s.up.isSome && !c.oneway
+  { s with reqSent := true, perTry := s.perTry || (arm && c.tryTimeout), global := s.global || arm }
+
+/-- outcome of the next `ConnectionPool.NewStream`: a scripted failure, a natural overflow, or admission -/
+def poolOutcome (c : Cfg) (s : S) : Option PoolFail :=
+  match s.failNext with
+  | f :: _ => some f
+  | [] => if Gen.Resource.canCreate c.maxRequests s.requests then none else some .overflow
+
+/-- `upstreamRequest.OnFailure`: pool failure reason → stream reset reason -/
+def failReason : PoolFail → Reason
+  | .overflow => overflowReason
+  | .connfail => connectionFailureReason
 
 /-- `upstreamRequest.appendHeaders(endStream)`: `ConnectionPool.NewStream` + `OnReady` / `OnFailure` -/
 def upAppendHeaders (c : Cfg) (s : S) (eos : Bool) : S :=
   if processDone s then s else
   let k := s.streams.length
-  let fail : Option PoolFail :=
-    match s.failNext with
-    | f :: _ => some f
-    | [] => if Gen.Resource.canCreate c.maxRequests s.requests then none else some .overflow
-  let s := { s with failNext := s.failNext.drop 1 }
-  match fail with
+  match poolOutcome c s with
   | some f =>
-    let s := emit { s with streams := s.streams ++ [(⟨false, false, false, false⟩ : Stream)] } (.uf k f)
-    upOnResetStream s (match f with | .overflow => overflowReason | .connfail => connectionFailureReason)
+    upOnResetStream { s with failNext := s.failNext.drop 1,
+                             streams := s.streams ++ [(⟨false, false, false, false⟩ : Stream)],
+                             trace := s.trace ++ [.uf k f] } (failReason f)
   | none =>
-    let s := emit s (.un k)
-    let counted := !c.oneway
-    let s := { s with streams := s.streams ++ [(⟨true, true, true, counted⟩ : Stream)] }
-    let s := if counted then { s with requests := Gen.Resource.increase c.maxRequests s.requests, upActive := s.upActive + 1 } else s
-    emit { s with up := some (some k) } (.uh k eos)
+    { s with failNext := s.failNext.drop 1,
+             streams := s.streams ++ [(⟨true, true, true, !c.oneway⟩ : Stream)],
+             requests := if !c.oneway then Gen.Resource.increase c.maxRequests s.requests else s.requests,
+             upActive := if !c.oneway then s.upActive + 1 else s.upActive,
+             up := some (some k),
+             trace := (s.trace ++ [.un k]) ++ [.uh k eos] }
+
+/-- the trace after `appendData`/`appendTrailers` of the current upstream request: nothing is written when the
+request is done or no client stream exists -/
+def dataTrace (s : S) (e : Nat → Ev) : List Ev :=
+  match processDone s, curStream s with
+  | false, some k => s.trace ++ [e k]
+  | _, _ => s.trace
 
 /-- `upstreamRequest.appendData(endStream)` -/
-def upAppendData (s : S) (eos : Bool) : S :=
-  if processDone s then s else
-  match s.up with
-  | some (some k) => emit s (.ud k eos)
-  | _ => s
+def upAppendData (s : S) (eos : Bool) : S := { s with trace := dataTrace s (fun k => .ud k eos) }
 
 /-- `upstreamRequest.appendTrailers()` -/
-def upAppendTrailers (s : S) : S :=
-  if processDone s then s else
-  match s.up with
-  | some (some k) => emit s (.ut k)
-  | _ => s
+def upAppendTrailers (s : S) : S := { s with trace := dataTrace s .ut }
 
 /-- `downStream.chooseHost(endStream)` -/
 def chooseHost (c : Cfg) (s : S) : S :=
